@@ -432,7 +432,7 @@ impl V for SocketAddrV4 {
 
 impl V for SocketAddrV6 {
     fn desc(_: bool) -> String { "fields(barr(16),u16)".into() }
-    fn parse(p: &mut P) -> Option<Self> { parse2::<Ipv6Addr, u16>(p).map(|(a, b)| SocketAddrV6::new(a, b, 0x01020304, 3 + b as u32)) }      // flow info and scope id are not part of the encoding
+    fn parse(p: &mut P) -> Option<Self> { parse2::<Ipv6Addr, u16>(p).map(|(a, b)| SocketAddrV6::new(a, b, if b % 3 == 0 { 0 } else { 0x01020304 }, if b % 2 == 0 { 0 } else { 3 + b as u32 })) }      // flow info and scope id are not part of the encoding
     fn show(&self, o: &mut String) { show2(o, self.ip(), &self.port()) }
 }
 
